@@ -348,8 +348,17 @@ func VF_C04_template() {
 // VF_C05_template: exactly the three scope keywords parse and each reaches
 // the matching runtime setter; no keyword: the default scope.
 func VF_C05_template() {
-	ctor := "NewX"
-	svc := input.Service{Constructor: &ctor}
+	ctor, val, typ := "NewX", "&X{}", "*X"
+	var svc input.Service
+	creation := vfChoice("creation", 3)
+	switch creation {
+	case 0:
+		svc.Constructor = &ctor
+	case 1:
+		svc.Value = &val
+	case 2:
+		svc.Type = &typ
+	}
 	want := "SetScopeDefault"
 	if vfBool("declared") {
 		kw := vfStr("keyword", vfBound("c05.kw", 10, 12))
@@ -389,6 +398,22 @@ func VF_C05_template() {
 		}
 	}
 	vfAssert(n == 1, "exactly one scope is set")
+	// whatever the scope, the object is made by a function the runtime calls for
+	// every instantiation (a fresh one per injection / Get / context where the
+	// scope says so): the value expression is never evaluated once and stored
+	nc := 0
+	for _, c := range b.Calls {
+		if c.Fn == "SetValue" {
+			vfAssert(false, "a service is created per instantiation, not once when the container is built")
+		}
+		if c.Fn == "SetConstructor" {
+			nc++
+			if creation != 0 && len(c.Args) > 0 {
+				vfAssert(strings.HasPrefix(strings.ReplaceAll(c.Args[0], " ", ""), "func()"), "a value or bare type is wrapped in a function evaluated per instantiation")
+			}
+		}
+	}
+	vfAssert(nc == 1, "one creation method")
 	vfReach("C05_template")
 }
 
